@@ -568,6 +568,12 @@ class Interp:
                 # an imported name, a module-level object that is not a literal, or a class of the module, none of which a
                 # sidecar models: an unknown object
                 v = Unknown(f'module:{node.id}')
+                helper = self._imported_repo_helper(rel, tree, node.id)
+                if helper is not None:
+                    # a plain function imported from a sibling module of the repository (e.g. a helper a change moved there): the REAL
+                    # function, inlined - only when its body needs nothing from its own module's namespace
+                    yield st, Closure(helper, 0, node.id)
+                    return
                 # ... except the few library objects whose meaning is fixed and matters for control flow
                 for n in tree.body:
                     if isinstance(n, ast.ImportFrom) and n.module == 'contextlib':
@@ -580,6 +586,35 @@ class Interp:
                                 v = Obj('contextlib', suppress=_SUPPRESS)
                                 v._lenient = True
             yield st, v
+
+    @staticmethod
+    def _imported_repo_helper(rel, tree, name):
+        import builtins, os
+        from . import source, models
+        for n in tree.body:
+            if not (isinstance(n, ast.ImportFrom) and n.level >= 1):
+                continue
+            for a in n.names:
+                if (a.asname or a.name) != name:
+                    continue
+                base = os.path.dirname(rel)
+                for _ in range(n.level - 1):
+                    base = os.path.dirname(base)
+                cand = os.path.join(base, *(n.module.split('.') if n.module else [])) + '.py'
+                try:
+                    fnode = source.select(cand, a.name)
+                except Exception:
+                    return None
+                if not isinstance(fnode, (ast.FunctionDef, ast.AsyncFunctionDef)) or fnode.decorator_list:
+                    return None
+                bound = {x.arg for x in ast.walk(fnode) if isinstance(x, ast.arg)}
+                bound |= {x.id for x in ast.walk(fnode) if isinstance(x, ast.Name) and isinstance(x.ctx, ast.Store)}
+                bound |= {x.name for x in ast.walk(fnode) if isinstance(x, (ast.FunctionDef, ast.AsyncFunctionDef)) and x is not fnode}
+                free = {x.id for x in ast.walk(fnode) if isinstance(x, ast.Name) and isinstance(x.ctx, ast.Load)} - bound
+                if all(hasattr(builtins, f) or f in models.BUILTINS for f in free):
+                    return fnode
+                return None
+        return None
 
     @staticmethod
     def _assigned_in_enclosing_function(rel, fn, name):
